@@ -221,6 +221,19 @@ def worker(job):
                 st.inc("missing_command_runs")
             if problems:
                 st.violate("exec-single", None, {"args": ["find", root] + toks, "problems": problems[:4], "stderr": err[-200:]}, rp)
+            if t % 10 == 0:
+                # the root directory as a starting point (a path without a parent): -exec still runs in find's own working directory
+                xlog = os.path.join(sb, "rec-root.log")
+                roots2 = rng.choice([["/"], ["/", "/"], ["//"], ["/."]])
+                a2 = [common.FIND] + roots2 + ["-maxdepth", "0", "-exec", common.REC, tag + "root", "x{}y", "{}", ";"]
+                rc2, out2, err2, to2 = common.run_cmd(a2, cwd=sb, env=common.clean_env({"VERIF_REC_LOG": xlog}), timeout=60)
+                runs2 = [(os.path.realpath(cwd_.decode()), [x.decode("utf-8", "surrogateescape") for x in argv_]) for cwd_, argv_ in xref.read_reclog(xlog)]
+                want2 = [(os.path.realpath(sb), [tag + "root", "x%sy" % r_, r_]) for r_ in roots2]
+                st.inc("evaluations")
+                st.inc("runs_on_the_root_directory")
+                if runs2 != want2 or rc2 != 0:
+                    st.violate("exec-single", None, {"args": ["find"] + a2[1:], "problems": ["runs (cwd, argv) %r, expected %r" % (runs2[:3], want2[:3])],
+                                                     "exit": rc2, "stderr": err2[-200:]}, {"args": ["find"] + a2[1:]})
             if t % 13 == 0:
                 st.sample({"args": ["find", "r"] + toks, "runs": got_runs[:2]})
             common.force_rmtree(sb)
